@@ -272,6 +272,11 @@ def mk_list_case(fn, ints, scal, lists):
 def gen_list(ctx, nper):
     r = ctx.rng.__class__(ctx.subseed("c11-list"))
     cases = []
+    # directed: values that compare equal to another value but differ in their bits (signed zeros), and the other special
+    # values, through every helper that stores or moves cells - the defining formula p[i] = v is about the value stored
+    for v in (0.0, -0.0, 5e-324, -5e-324, math.inf, -math.inf, 1.7976931348623157e308, 1.0):
+        for n in (1, 3):
+            cases.append(mk_list_case("fill", [n], [v], [[1.5] * (n + 1)]))
     for k in range(nper):
         n = r.choice([0, 1, 1, 2, 3, 4, 5, 7, 8, 12])
         wild = (k % 4 == 0)
